@@ -115,6 +115,13 @@ func (w *World) buildCallGraph() *CallGraph {
 						}
 					}
 				}
+			case *ast.SelectorExpr:
+				// os.Stdout used as a value (handed to a writer, a logger, ...): census stdoutref
+				if id, ok := s.X.(*ast.Ident); ok && s.Sel.Name == "Stdout" {
+					if pn, ok := info.Uses[id].(*types.PkgName); ok && pn.Imported().Path() == "os" {
+						n.Direct = append(n.Direct, EffectSite{"stdoutref", "os.Stdout", pos(s)})
+					}
+				}
 			case *ast.CallExpr:
 				if id, ok := s.Fun.(*ast.Ident); ok && id.Name == "recover" {
 					if _, isBuiltin := info.Uses[id].(*types.Builtin); isBuiltin {
@@ -377,7 +384,7 @@ func dirCensus(r *Run, d *Directive) []*Obligation {
 		name := n.Site.pkg.Name + "." + n.Site.name
 		count := 0
 		switch kind {
-		case "maprange", "goroutine":
+		case "maprange", "goroutine", "stdoutref":
 			for _, e := range n.Direct {
 				if e.Class == kind {
 					count++
